@@ -42,6 +42,15 @@ CHECKS = {
  "C16": ("exploration", "runtime monitor: RefAttr (independent WHATWG tag tokenizer) + RefTree + namespace ground truth vs every Element getter; list model for reads after edits",
          "All getters of all elements of generated documents (HTML/SVG/MathML context, any encoding, cuts at every byte of a tag) are compared with an independent attribute parser over the tag's bytes decoded by encoding_rs, with case-variant lookups and with a list model of set/remove/rename edits.",
          "RefAttr validated against html5ever on UTF-8.", "§5 C16"),
+ "C07": ("exploration", "runtime monitor: reference editor (RefEditor) applied to generator ground truth vs sink bytes; semantic comparison of re-serialised tags via RefAttr",
+         "Random op scripts addressed by token offset (all element / start tag / end tag / comment / text / doctype / document-end operations, both content types, streaming variants, several handlers per token, nested and unclosed elements, void and foreign self-closing, 36 encodings, random schedules) are applied by the real rewriter and by an independent editor over the ground-truth token list; outputs must coincide.",
+         "Undocumented op combinations are not generated (DESIGN.md Appendix A); one known finding (end-side edits on implicitly closed elements) matched by an exact bug model.", "§5 C07"),
+ "C08": ("exploration", "runtime monitor: re-parse oracle - the output is re-tokenised by lol-html and by html5ever and compared with the original token structure plus the intended insertion",
+         "Adversarial strings through every insertion API in every text context and encoding: both tokenizers must agree on the output, the markup skeleton must be unchanged apart from the intended change, inserted text must read back verbatim where character references are decoded, rejected inputs must leave the output unchanged.",
+         "Names that legitimately change the content model are not judged (documented caller obligation).", "§5 C08"),
+ "C13": ("exploration", "runtime monitor: encoding_rs whole-buffer decode / encode oracle over generated documents in all 36 encodings; ordering check of set_encoding in the sink log",
+         "Text and comment strings read by handlers are compared with whole-buffer decoding of the ground-truth bytes (malformed sequences, characters split by writes and by the 1024-byte decoder buffer); inserted content with unmappable characters is compared with encoding_rs encode; meta-charset documents check which side of the declaration is decoded how, the number of switches and the position of the sink notification; AsciiCompatibleEncoding::new is checked exhaustively over the 40 encodings.",
+         "encoding_rs is the reference for each encoding.", "§5 C13"),
 }
 
 NOT_YET = {
